@@ -9,7 +9,7 @@ import random
 
 WIDTHS = [1, 1, 2, 3, 4, 5, 8, 8, 12, 16, 24, 31, 32]
 OUT_KINDS = ['for', 'while', 'list', 'call', 'float', 'truediv', 'chained', 'tuple', 'augport', 'ternary_call', 'pow', 'return', 'subscript', 'string']
-FIND_KINDS = ['boolop_value', 'ifexp_propagate', 'portname', 'narrow', 'ifexp_clock', 'match_nodefault']
+FIND_KINDS = ['boolop_value', 'ifexp_propagate', 'portname', 'narrow', 'ifexp_clock', 'match_nodefault', 'cmp_rhs']
 
 
 class Gen:
@@ -80,14 +80,13 @@ class Gen:
         if c < 0.86: self.count('~'); return '(~%s & %s)' % (a, self.mask())
         if c < 0.88: self.count('neg'); return '((-%s) & %s)' % (a, self.mask())
         if c < 0.93: self.count('cmp_value'); return '(%s)' % self.cmp(d - 1)
-        if c < 0.96 and self.kind == 'clock' and self.flavour != 'plain_noifexp':
-            self.count('ifexp'); return '(%s if %s else %s)' % (a, self.cond(d - 1), self.val(d - 1))
         self.count('not_value'); return '(not %s)' % self.cond(d - 1)
 
     def cmp(self, d):
         op = self.r.choice(['==', '!=', '<', '<=', '>', '>='])
         self.count('cmp')
-        b = self.val(d) if self.r.random() < 0.5 else self.leaf(small=True)
+        # the right operand is a leaf or a sum (a bitwise operator there is a known finding: see 'find:cmp_rhs')
+        b = '(%s + %s)' % (self.val(d), self.leaf(small=True)) if self.r.random() < 0.4 else self.leaf(small=self.r.random() < 0.5)
         return '%s %s %s' % (self.val(d), op, b)
 
     def cond(self, d):
@@ -189,7 +188,10 @@ class Gen:
         if f == 'find:boolop_value':
             return [pre + 'bv = %s %s %s' % (g, r.choice(['or', 'and']), r.choice(['5', self.leaf()])), pre + 'self.%s.%s(bv)' % (o, w)]
         if f in ('find:ifexp_propagate', 'find:ifexp_clock'):
-            return [pre + 'self.%s.%s(%s if %s else %s)' % (o, w, self.val(1), self.cond(1), self.val(1))]
+            return [pre + 'tern = %s if %s else %s' % (self.val(1), self.cond(1), self.val(1)), pre + 'self.%s.%s(tern)' % (o, w)]
+        if f == 'find:cmp_rhs':
+            return [pre + 'if %s %s (%s %s %s):' % (self.leaf(), r.choice(['==', '<=', '>', '!=']), g, r.choice(['&', '|', '^']), self.leaf(small=True)),
+                    pre + '    self.%s.%s(1)' % (o, w), pre + 'else:', pre + '    self.%s.%s(0)' % (o, w)]
         if f == 'find:portname': return [pre + 'self.%s.%s(%s)' % (self.port_attr[[n for n in self.port_attr if self.port_attr[n] != n][0]], w, self.val(1))]
         if f == 'find:narrow':
             a = 'self.%s.get()' % self.port_attr[r.choice(self.ins)[0]]
@@ -212,12 +214,13 @@ class Gen:
         L.append('    def %s(self):' % self.kind)
         # every output is written at least once at the top level of a propagate body (a latch-free combinational block)
         pre = ['        self.%s.put(%s)' % (self.port_attr[n], self.leaf()) for n, _ in self.outs] if self.kind == 'propagate' else []
-        body = self.stmts(depth, 8, self.r.randint(1, 3))
         kind = self.flavour.split(':')[0]
-        if kind in ('out', 'find') and self.flavour != 'find:match_nodefault':
-            pos = self.r.randint(0, 1)
-            planted = self.plant(8)
-            body = planted + body if pos == 0 else body + planted
+        plant = kind in ('out', 'find') and self.flavour != 'find:match_nodefault'
+        pos = self.r.randint(0, 1)
+        planted = self.plant(8) if plant and pos == 0 else []
+        body = self.stmts(depth, 8, self.r.randint(1, 3))
+        if plant and pos == 1: planted = self.plant(8)
+        body = planted + body if pos == 0 else body + planted
         if self.flavour == 'find:match_nodefault' and not self.planted:
             a = self.attrs[0][0] if self.attrs else None
             if a is None:
@@ -227,12 +230,25 @@ class Gen:
         return '\n'.join(L) + '\n'
 
 
+def clean(g):
+    """a 'plain' program must not contain a known-finding construct by accident"""
+    import ast
+    from props import c02_dump
+    fn = [n for n in ast.walk(ast.parse(g.src)) if isinstance(n, ast.FunctionDef) and n.name == g.kind][0]
+    narrow, cmp_rhs = c02_dump.signatures(fn, {g.port_attr[n]: w for n, w in g.ins + g.outs})
+    return not narrow and not cmp_rhs
+
+
 def make_module(rng, n, depth, flavours, prefix='G'):
     """returns (module text, [Gen]) for n classes; flavours: list cycled through"""
     gens, parts = [], ['from py4hw.base import Logic\n\n']
     for k in range(n):
-        g = Gen(rng, '%s%d' % (prefix, k), flavours[k % len(flavours)])
-        g.src = g.text(depth)
+        fl = flavours[k % len(flavours)]
+        for attempt in range(50):
+            g = Gen(rng, '%s%d' % (prefix, k), fl)
+            g.src = g.text(rng.randint(1, depth))
+            if fl not in ('plain',) and fl != 'find:narrow' and fl != 'find:cmp_rhs' or fl == 'plain' and clean(g): break
+            if fl == 'find:narrow' or fl == 'find:cmp_rhs': break
         parts.append(g.src + '\n')
         gens.append(g)
     return ''.join(parts), gens
